@@ -187,6 +187,10 @@ pub fn random_source(rng: &mut Rng, w: i32, h: i32, solid_weight: u64) -> SrcSpe
             if ((end.0 - start.0).powi(2) + (end.1 - start.1).powi(2)).sqrt() < 1. {
                 end.0 += 2.;
             }
+            // a zero-length gradient vector is a legitimate (degenerate) source too
+            if rng.chance(0.06) {
+                end = start;
+            }
             SrcSpec::Linear { stops: random_stops(rng), start, end, spread: rng.below(3) as u8 }
         }
         3 => SrcSpec::Radial { stops: random_stops(rng), center: (rng.range(-1., wf + 1.) as f32, rng.range(-1., hf + 1.) as f32), radius: rng.range(1., wf + hf) as f32, spread: rng.below(3) as u8 },
